@@ -81,6 +81,9 @@ const (
 	kSwap     = 46
 	kCollect  = 80
 	kTransfer = 99
+	kICollect  = 86
+	kIncentive = 90
+	kAdvance   = 93
 )
 
 // liqUnit: rounding loss of one truncated division by liquidity, in whole tokens (+1): growth per unit of liquidity is
@@ -404,13 +407,22 @@ func runCL(t *testing.T, seed int64, n int, dir string) {
 		if r.Intn(2) == 0 {
 			h.App.ConcentratedLiquidityKeeper.SetSpreadFactorPoolIDMigrationThreshold(h.Ctx, 1<<40)
 		}
+		if r.Intn(2) == 0 { // the incentive accumulators have their own migration threshold
+			h.App.ConcentratedLiquidityKeeper.SetIncentivePoolIDMigrationThreshold(h.Ctx, 1<<40)
+		}
 		p := h.PrepareCustomConcentratedPool(e.accs[0], clDenom0, clDenom1, uint64(e.spacing), e.spf)
 		e.poolId = p.GetId()
 		scale, err := h.App.ConcentratedLiquidityKeeper.VerifSpreadFactorScalingFactor(h.Ctx, e.poolId)
 		if err != nil {
 			t.Fatal(err)
 		}
-		o.Emit(fmt.Sprintf("clp reset %d %s %s", e.spacing, e.spf.BigInt(), scale.BigInt()), "ok", true)
+		ifactor, err := h.App.ConcentratedLiquidityKeeper.VerifIncentiveScalingFactor(h.Ctx, e.poolId)
+		if err != nil {
+			t.Fatal(err)
+		}
+		e.inc.t0 = h.Ctx.BlockTime()
+		o.Emit(fmt.Sprintf("clp reset %d %s %s %s %d", e.spacing, e.spf.BigInt(), scale.BigInt(), ifactor.BigInt(), 4), "ok", true)
+		o.Count("pool.incfactor" + ifactor.String()[:4])
 		o.Count("pool.scale" + scale.String()[:4])
 		o.Count(fmt.Sprintf("pool.spacing%d", e.spacing))
 		nops := 25 + r.Intn(50)
@@ -422,6 +434,7 @@ func runCL(t *testing.T, seed int64, n int, dir string) {
 				e.exportImport()
 			}
 			o.Emit("clp fdump", e.dumpFeesImpl(), true)
+			o.Emit("clp idump", e.dumpIncImpl(), true)
 			e.oracleNoLoss(e.opClass)
 			e.oracleIncentives()
 			if e.r.Intn(3) == 0 {
@@ -459,6 +472,12 @@ func (e *clEngine) step() {
 		if id == ^uint64(0) {
 			id = e.lastNew
 		}
+		if id == ^uint64(0)-1 {
+			id = 0
+			if len(e.pos) > 0 {
+				id = e.anyPos().id
+			}
+		}
 		if _, ok := e.pos[id]; ok || st.id == 0 {
 			kind, e.forced, e.forcePos = st.kind, true, id
 			o.Count("script.step")
@@ -474,6 +493,27 @@ func (e *clEngine) step() {
 		}
 		var mid scriptStep
 		last := scriptStep{kCollect, q.id}
+		if e.r.Intn(3) == 0 {
+			// incentive sequence: record -> time -> (swap, maybe crossing) -> time -> collect incentives / withdraw / add on q
+			var fin scriptStep
+			switch e.r.Intn(4) {
+			case 0:
+				fin = scriptStep{kWithdraw, q.id}
+			case 1:
+				fin = scriptStep{kAdd, q.id}
+			default:
+				fin = scriptStep{kICollect, q.id}
+			}
+			e.queue = []scriptStep{{kIncentive, 0}, {kAdvance, 0}, {kSwap, 0}, {kAdvance, 0}, fin}
+			if e.r.Intn(2) == 0 {
+				e.queue = append(e.queue, scriptStep{kAdvance, 0}, scriptStep{kICollect, ^uint64(0) - 1})
+			}
+			o.Count("script.incentive-sequence")
+			st := e.queue[0]
+			e.queue = e.queue[1:]
+			kind, e.forced = st.kind, true
+			goto scripted
+		}
 		switch e.r.Intn(3) {
 		case 0:
 			mid = scriptStep{kWithdraw, q.id}
@@ -498,6 +538,7 @@ func (e *clEngine) step() {
 		e.queue = e.queue[1:]
 		kind, e.forced = st.kind, true
 	}
+scripted:
 	if len(e.pos) == 0 {
 		kind = 0
 		e.queue = nil
